@@ -36,7 +36,7 @@
    fuel of the labelling model is mapped to the empty cache in [canon_real] and excluded by
    theorem for every graph the search can pass (C03_canon_real_returns).  [canon_real] computes
    the number of edges from the neighbour lists where the Go code is given m: they agree
-   (C03_canon_real_edges).
+   (first clause of C03_canon_real_returns).
 
    What remains outside: model = code (Search/Model.v by C03's co-simulation, Canon/SearchModel.v
    by C01's stream `search` on exact outputs, the k-subset loop by the strict part of the
@@ -81,9 +81,12 @@ Print Assumptions C03_check_viability_sound.
 (* The adapter never takes its stand-in for a Panic / exhausted fuel: on every well-formed graph
    with at least one vertex getAutomorphismGroup with CheckViability = false stores a full
    answer (p, o, gs) of the labelling model; with CheckViability = true and viable bits below
-   the number of vertices it stores that answer, or nil after the early exit. *)
+   the number of vertices it stores that answer, or nil after the early exit.  And the m that
+   getAutomorphismGroup passes (G.NumberOfEdges) is the number of edges the labelling model
+   computes from the graph it is given. *)
 Theorem C03_canon_real_returns :
   forall g vb, wfv g -> 1 <= nv_of g ->
+  ne_of g = Z.of_nat (SearchModel.num_edges (matrix_of g)) /\
   exists p o gs,
     SearchModel.canon_search (real_fuel (nv_of g)) (matrix_of g) None = SearchModel.Ok (p, o, gs) /\
     get_aut canon_real g false vb = Some (mkCache (Some p) o gs) /\
@@ -92,46 +95,30 @@ Theorem C03_canon_real_returns :
       get_aut canon_real g true vb = Some (mkCache (Some p) o gs)) \/
      (canon_search_v (real_fuel (nv_of g)) (matrix_of g) vb = SearchModel.Ok None /\
       get_aut canon_real g true vb = Some no_cache)).
-Proof. exact canon_real_returns. Qed.
+Proof. intros g vb W Hn. split; [exact (wfv_num_edges g W)|exact (canon_real_returns g vb W Hn)]. Qed.
 Print Assumptions C03_canon_real_returns.
 
-(* The m that getAutomorphismGroup passes (G.NumberOfEdges) is the number of edges the labelling
-   model computes from the graph it is given. *)
-Theorem C03_canon_real_edges :
-  forall g, wfv g -> ne_of g = Z.of_nat (SearchModel.num_edges (matrix_of g)).
-Proof. exact wfv_num_edges. Qed.
-Print Assumptions C03_canon_real_edges.
-
-(* All(n, 0, 1) on the composed model: ends without panic; every entry is a well-formed graph on
-   n vertices; every simple graph on n vertices is isomorphic to an entry; entries at different
-   positions are not isomorphic. *)
+(* All(n, 0, 1) on the composed model: ends without panic — for some number of calls and steps, and
+   in fact for every calls >= 2^(n(n-1)/2) + 1 and steps >= sum_j 2^(j(j-1)/2) (2^j + 4) —; every
+   entry is a well-formed graph on n vertices; every simple graph on n vertices is isomorphic to
+   an entry; entries at different positions are not isomorphic. *)
 Theorem C03_all_exactly_one_per_class_real :
   forall grow n, n <= 63 ->
   exists L,
     (exists calls fuel, outputs grow canon_real ksub_real_fn no_prune no_prune calls fuel (init n 0 1) = Ok L) /\
+    (forall calls fuel, calls_bound n <= calls -> fuel_bound n <= fuel ->
+       outputs grow canon_real ksub_real_fn no_prune no_prune calls fuel (init n 0 1) = Ok L) /\
     Forall (wf_graph n) L /\
     (forall H, Iso.simple H -> length H = n -> exists g, In g L /\ Iso.iso (matrix_of g) H) /\
     ForallOrdPairs (fun g h => ~ Iso.iso (matrix_of g) (matrix_of h)) L.
 Proof.
   intros grow n Hn.
-  exact (outputs_orderly canon_real ksub_real_fn grow canon_real_novb n (real_canon_spec n Hn)).
+  destruct (outputs_orderly_fuel canon_real ksub_real_fn grow canon_real_novb n (real_canon_spec n Hn))
+    as (L & B & W & C & U).
+  exists L. split; [exists (calls_bound n), (fuel_bound n); apply B; apply le_n|].
+  split; [exact B|]. split; [exact W|]. split; [exact C|exact U].
 Qed.
 Print Assumptions C03_all_exactly_one_per_class_real.
-
-(* ... within closed bounds: calls <= 2^(n(n-1)/2) + 1, steps <= sum_j 2^(j(j-1)/2) (2^j + 4). *)
-Theorem C03_all_real_fuel_bound :
-  forall grow n, n <= 63 ->
-  exists L,
-    (forall calls fuel, calls_bound n <= calls -> fuel_bound n <= fuel ->
-       outputs grow canon_real ksub_real_fn (fun _ => false) (fun _ => false) calls fuel (init n 0 1) = Ok L) /\
-    Forall (wf_graph n) L /\
-    (forall H, Iso.simple H -> length H = n -> exists g, In g L /\ Iso.iso (matrix_of g) H) /\
-    ForallOrdPairs (fun g h => ~ Iso.iso (matrix_of g) (matrix_of h)) L.
-Proof.
-  intros grow n Hn.
-  exact (outputs_orderly_fuel canon_real ksub_real_fn grow canon_real_novb n (real_canon_spec n Hn)).
-Qed.
-Print Assumptions C03_all_real_fuel_bound.
 
 (* The whole of C03 on the composed model: the unsplit unpruned run is one graph per class; for
    every m >= 1 the shards a = 0..m-1 end without panic and yield together a permutation of it;
